@@ -3,25 +3,30 @@ package basicnode
 import (
 	"fmt"
 	"io"
+	"sync"
 
 	"github.com/ipld/go-ipld-prime/datamodel"
 	"github.com/ipld/go-ipld-prime/node/mixins"
 )
 
 var (
-	_ datamodel.Node          = streamBytes{nil}
+	_ datamodel.Node          = streamBytes{}
 	_ datamodel.NodePrototype = Prototype__Bytes{}
 	_ datamodel.NodeBuilder   = &plainBytes__Builder{}
 	_ datamodel.NodeAssembler = &plainBytes__Assembler{}
 )
 
 func NewBytesFromReader(rs io.ReadSeeker) datamodel.Node {
-	return streamBytes{rs}
+	return streamBytes{rs, new(sync.Mutex)}
 }
 
 // streamBytes is a boxed reader that complies with datamodel.Node.
 type streamBytes struct {
 	io.ReadSeeker
+	// mu serialises the users of the one underlying stream (all copies of the
+	// node and all cursors share it): a finished node may be read from several
+	// goroutines at once.
+	mu *sync.Mutex
 }
 
 // -- Node interface methods -->
@@ -70,7 +75,7 @@ func (streamBytes) AsString() (string, error) {
 }
 func (n streamBytes) AsBytes() ([]byte, error) {
 	// Read through a cursor of our own, from the start: reading a node must be repeatable.
-	return io.ReadAll(&streamBytesCursor{rs: n.ReadSeeker})
+	return io.ReadAll(&streamBytesCursor{rs: n.ReadSeeker, mu: n.mu})
 }
 func (streamBytes) AsLink() (datamodel.Link, error) {
 	return mixins.Bytes{TypeName: "bytes"}.AsLink()
@@ -81,7 +86,7 @@ func (streamBytes) Prototype() datamodel.NodePrototype {
 func (n streamBytes) AsLargeBytes() (io.ReadSeeker, error) {
 	// Each call returns a separate instance with its own read position,
 	// as the LargeBytesNode contract requires.
-	return &streamBytesCursor{rs: n.ReadSeeker}, nil
+	return &streamBytesCursor{rs: n.ReadSeeker, mu: n.mu}, nil
 }
 
 // streamBytesCursor is an independent read position over the ReadSeeker a
@@ -90,10 +95,13 @@ func (n streamBytes) AsLargeBytes() (io.ReadSeeker, error) {
 // node (and AsBytes) do not disturb each other.
 type streamBytesCursor struct {
 	rs  io.ReadSeeker
+	mu  *sync.Mutex
 	off int64
 }
 
 func (c *streamBytesCursor) Read(p []byte) (int, error) {
+	c.mu.Lock()
+	defer c.mu.Unlock()
 	if _, err := c.rs.Seek(c.off, io.SeekStart); err != nil {
 		return 0, err
 	}
@@ -108,7 +116,9 @@ func (c *streamBytesCursor) Seek(offset int64, whence int) (int64, error) {
 	case io.SeekCurrent:
 		offset += c.off
 	case io.SeekEnd:
+		c.mu.Lock()
 		end, err := c.rs.Seek(0, io.SeekEnd)
+		c.mu.Unlock()
 		if err != nil {
 			return 0, err
 		}
